@@ -496,3 +496,16 @@ Section Shape.
     exists idxs, e_path e = p ++ map PIdx idxs /\
                  (e_locs e = first_loc fields \/ (idxs = [] /\ e_locs e = map fn_pos fields)).
 End Shape.
+
+(** ** GetOperation (June 2018, 6.1): without an operation name the document must contain exactly
+    one operation; with a name, the operation of that name (names are unique in a valid document;
+    a document in which they are not determines no operation). *)
+Definition s_named (n : name) (o : operation) : bool :=
+  match o_name o with Some m => name_eqb m n | None => false end.
+Definition s_get_operation (R : request_doc) (opname : option name) : option operation :=
+  match opname with
+  | None => match r_ops R with [o] => Some o | _ => None end
+  | Some n => match filter (s_named n) (r_ops R) with [o] => Some o | _ => None end
+  end.
+(** Request.OperationName: the empty string is "no name" *)
+Definition opname_of (n : name) : option name := match n with [] => None | _ => Some n end.
